@@ -232,7 +232,7 @@ def reserved_docs(rng, quick):
     gp = gm.Gen(rng)
     gp.probe_reserved = True
     n = 0
-    while n < (60 if quick else 1500):
+    while n < (60 if quick else 600):
         gp.n = 0
         gp.reserved_made = []
         node = gp.node(["float", "boolean", "integer", "command", "enumeration", "intreg", "float", "boolean"])
@@ -381,8 +381,8 @@ def gen_cases(ck):
     for d in pool_docs():
         cases.append(doc_case("names", d))
     cases += interrupted_boundary(rng)
-    n_gen = 800 if quick else 60000
-    n_kind = 30 if quick else 1500
+    n_gen = 800 if quick else 10000
+    n_kind = 30 if quick else 300
     g = gm.Gen(rng)
     for k in gm.KINDS:                      # every kind on its own first
         for _ in range(n_kind):
@@ -391,7 +391,7 @@ def gen_cases(ck):
     for _ in range(n_gen):
         cases.append(doc_case("generated", g.doc()))
     # StructReg / Group documents against their desugared twins
-    for _ in range(120 if quick else 8000):
+    for _ in range(120 if quick else 1500):
         g.n = 0
         nodes = [g.node(["struct", "group", "struct", "intreg", "enumeration"]) for _ in range(rng.range(1, 3))]
         for n in nodes:
@@ -402,14 +402,14 @@ def gen_cases(ck):
             flat += desugar(n)
         cases.append(doc_case("twins", d, twin=gm.Doc(flat)))
     # formula-carrying kinds: implementation vs expectation
-    for _ in range(150 if quick else 5000):
+    for _ in range(150 if quick else 1500):
         g.n = 0
         cases.append(doc_case("formula", gm.Doc([g.k_formula() if rng.chance(2, 3) else g.k_iswiss()
                                                   for _ in range(rng.range(1, 3))])))
     # element texts interrupted by comments / processing instructions, every kind (the expectation is unchanged)
     gi = gm.Gen(rng)
     kinds_i = gm.KINDS + ["formula"]
-    for j in range(450 if quick else 15000):
+    for j in range(450 if quick else 4000):
         gi.n = 0
         if j < 3 * len(kinds_i):
             d = gm.Doc([getattr(gi, "k_" + kinds_i[j % len(kinds_i)])()])
@@ -419,7 +419,7 @@ def gen_cases(ck):
         most = interrupt(rng, root, 2, 3)
         cases.append(tree_case("interrupted", root, with_model=d.has_model(), doc=d, note="up to %d text pieces" % most))
     # mutated documents
-    for _ in range(250 if quick else 20000):
+    for _ in range(250 if quick else 3000):
         # malformed mutations stay clear of formula texts: the model keeps them as opaque strings while the code
         # parses them on the spot (formula::parse, property C05), so a junk formula panics only in the code
         want_benign = rng.chance(2, 9)
@@ -428,12 +428,16 @@ def gen_cases(ck):
         g.no_formula = False
         root = tree_of_text(d.xml())
         kind, benign = mutate(rng, root, want_benign)
-        cases.append(tree_case("mutated", root, note=kind, doc=d if benign else None))
+        # a malformed mutation can move a free text into a place where the parser decides "number or node name" by
+        # char::is_alphabetic of its first character - modelled exactly on ASCII only (trusted base): documents whose
+        # texts leave ASCII are then run on the code alone (no panic-free claim is made for malformed documents)
+        in_domain = benign or all(ord(ch) < 128 for ch in root.xml(root=True))
+        cases.append(tree_case("mutated", root, with_model=in_domain, note=kind, doc=d if benign else None))
     # the known limitation (only while KNOWN_FINDINGS.json lists it, or when forced)
     if ck.limitation_listed or os.environ.get("VERIF_C17_PROBE"):
         gp = gm.Gen(rng, probe_limitation=True)
         n = 0
-        while n < (80 if quick else 2000):
+        while n < (80 if quick else 800):
             gp.n = 0
             s = gp.k_struct()
             if s.known_limitation():
